@@ -21,6 +21,7 @@ import (
 type easm struct {
 	b    []byte
 	desc []string
+	plain bool // no boundary operands (pushOperand)
 }
 
 func (a *easm) op(ops ...vm.OpCode) *easm {
@@ -94,6 +95,45 @@ func drawWord(c *Ctx, label string) uint64 {
 	return uint64(1) << uint(c.Draw(label, 64))
 }
 
+// pushOperand pushes plain, or (one time in `rarity`) a boundary value of the operand widths the
+// interpreter converts between: 2^64-1 and its neighbours (uint64 wrap-around of offset+length),
+// 2^63, 2^32 +- 1, 2^31, 2^64 (first value that does not fit), 2^255, 2^256-1.
+func pushOperand(c *Ctx, label string, a *easm, plain uint64, rarity int) bool {
+	if a.plain || c.Draw(label, rarity) != rarity-1 {
+		a.push(plain)
+		return false
+	}
+	switch c.Draw(label, 10) {
+	case 0:
+		a.pushBytes([]byte{0xff, 0xff, 0xff, 0xff, 0xff, 0xff, 0xff, 0xff}) // 2^64-1
+	case 1:
+		a.push(^uint64(0) - uint64(c.Draw(label, 65))) // just below 2^64
+	case 2:
+		a.push(uint64(1) << 63)
+	case 3:
+		a.push(uint64(1)<<63 - 1)
+	case 4:
+		a.push(uint64(1) << 32)
+	case 5:
+		a.push(uint64(1)<<32 - 1)
+	case 6:
+		a.push(uint64(1) << 31)
+	case 7:
+		a.pushBytes([]byte{1, 0, 0, 0, 0, 0, 0, 0, 0}) // 2^64
+	case 8:
+		b := make([]byte, 32)
+		b[0] = 0x80
+		a.pushBytes(b) // 2^255
+	default:
+		b := make([]byte, 32)
+		for i := range b {
+			b[i] = 0xff
+		}
+		a.pushBytes(b) // 2^256-1
+	}
+	return true
+}
+
 func (e *evmEnv) drawTarget(c *Ctx, label string) (common.Address, string) {
 	switch k := c.Draw(label, 10); {
 	case k < 5 && len(e.Contracts) > 0:
@@ -128,10 +168,14 @@ func genStatement(c *Ctx, label string, a *easm, e *evmEnv, allowNested bool) {
 		for i := 0; i < n; i++ {
 			a.push(uint64(c.Draw(label, 4)))
 		}
-		a.push(uint64(c.Draw(label, 40))).push(uint64(c.Draw(label, 40))).op(vm.LOG0 + vm.OpCode(n))
+		pushOperand(c, label, a, uint64(c.Draw(label, 40)), 12)
+		pushOperand(c, label, a, uint64(c.Draw(label, 40)), 12)
+		a.op(vm.LOG0 + vm.OpCode(n))
 		a.note("log%d", n)
 	case k < 7:
-		a.push(drawWord(c, label)).push(uint64(c.Draw(label, 96))).op([]vm.OpCode{vm.MSTORE, vm.MSTORE8}[c.Draw(label, 2)])
+		a.push(drawWord(c, label))
+		pushOperand(c, label, a, uint64(c.Draw(label, 96)), 10)
+		a.op([]vm.OpCode{vm.MSTORE, vm.MSTORE8}[c.Draw(label, 2)])
 		a.note("mstore")
 	case k < 9:
 		op := evmArith2[c.Draw(label, len(evmArith2))]
@@ -147,7 +191,9 @@ func genStatement(c *Ctx, label string, a *easm, e *evmEnv, allowNested bool) {
 			t, _ := e.drawTarget(c, label)
 			a.pushAddr(t).op([]vm.OpCode{vm.BALANCE, vm.EXTCODESIZE}[c.Draw(label, 2)], vm.POP)
 		default:
-			a.push(uint64(c.Draw(label, 64))).push(uint64(c.Draw(label, 64))).op(vm.SHA3, vm.POP)
+			pushOperand(c, label, a, uint64(c.Draw(label, 64)), 8)
+			pushOperand(c, label, a, uint64(c.Draw(label, 64)), 8)
+			a.op(vm.SHA3, vm.POP)
 		}
 		a.note("misc")
 	case k < 11:
@@ -158,18 +204,40 @@ func genStatement(c *Ctx, label string, a *easm, e *evmEnv, allowNested bool) {
 		if c.Draw(label, 6) == 5 {
 			size = drawWord(c, label)
 		}
-		switch c.Draw(label, 4) {
+		// operands: size, source offset, memory offset; the source offset (and rarely the memory offset) takes
+		// boundary values of the 64-bit conversion, with small sizes so that the memory gas stays affordable
+		kind := c.Draw(label, 4)
+		edge := false
+		if c.Draw(label, 5) == 4 {
+			// wrap-around pair: source offset just below 2^64 and a size that carries offset+size to 0..2
+			k := uint64(c.Draw(label, 8))
+			a.push(k + 1 + uint64(c.Draw(label, 3))).push(^uint64(0) - k)
+			edge = true
+		} else {
+			a.push(size)
+			srcPlain := uint64(c.Draw(label, 64))
+			if kind == 3 {
+				srcPlain = uint64(c.Draw(label, 8))
+			}
+			edge = pushOperand(c, label, a, srcPlain, 4)
+		}
+		edge = pushOperand(c, label, a, uint64(c.Draw(label, 64)), 16) || edge
+		switch kind {
 		case 0:
-			a.push(size).push(uint64(c.Draw(label, 64))).push(uint64(c.Draw(label, 64))).op(vm.CALLDATACOPY)
+			a.op(vm.CALLDATACOPY)
 		case 1:
-			a.push(size).push(uint64(c.Draw(label, 64))).push(uint64(c.Draw(label, 64))).op(vm.CODECOPY)
+			a.op(vm.CODECOPY)
 		case 2:
 			t, _ := e.drawTarget(c, label)
-			a.push(size).push(uint64(c.Draw(label, 64))).push(uint64(c.Draw(label, 64))).pushAddr(t).op(vm.EXTCODECOPY)
+			a.pushAddr(t).op(vm.EXTCODECOPY)
 		default:
-			a.push(size).push(uint64(c.Draw(label, 8))).push(uint64(c.Draw(label, 64))).op(vm.RETURNDATACOPY)
+			a.op(vm.RETURNDATACOPY)
 		}
-		a.note("copy")
+		if edge {
+			a.note("copy#%d(edge operand)", kind)
+		} else {
+			a.note("copy")
+		}
 	case k < 13: // bounded countdown loop
 		n := uint64(1 + c.Draw(label, 6))
 		a.push(n)
@@ -257,8 +325,15 @@ func genTerminator(c *Ctx, label string, a *easm, e *evmEnv) {
 		a.op(vm.STOP)
 		a.note("stop")
 	case 3, 4:
-		a.push(uint64(c.Draw(label, 3)) * 32).push(uint64(c.Draw(label, 3)) * 32).op(vm.RETURN)
-		a.note("return")
+		size := uint64(c.Draw(label, 3)) * 32
+		if c.Draw(label, 6) == 5 {
+			// around the maximum contract code size (a creation that returns more fails AFTER its init code ran fine)
+			size = []uint64{24576, 24577, 24577, 40000}[c.Draw(label, 4)]
+		}
+		a.push(size)
+		pushOperand(c, label, a, uint64(c.Draw(label, 3))*32, 16)
+		a.op(vm.RETURN)
+		a.note("return(%d)", size)
 	case 5, 6:
 		a.push(uint64(c.Draw(label, 3)) * 32).push(0).op(vm.REVERT)
 		a.note("revert")
@@ -301,7 +376,7 @@ func genCode(c *Ctx, label string, e *evmEnv) ([]byte, string) {
 		}
 		return a.b, fmt.Sprintf("randomops(%d)", n)
 	case k == 9 && e.Self >= 0: // (iii) recursion towards the depth limit: optional write, then call self with all gas
-		a := &easm{}
+		a := &easm{plain: true} // may run with an astronomic gas limit: no operand that makes gigabytes of memory affordable
 		if c.Draw(label, 2) == 1 {
 			a.push(1).push(0).op(vm.SSTORE)
 		}
